@@ -42,6 +42,7 @@ fn main() {
             "print" => run::print(&fields[1..]),
             "printmc" => run::printmc(&fields[1..]),
             "mcinstr" => run::mcinstr(&fields[1..]),
+            "mcprog" => run::mcprog(&fields[1..]),
             "runs" => run::runs(&fields[1..]),
             "dumpir" => run::dumpir(&fields[1..]),
             "dumpbc" => run::dumpbc(&fields[1..]),
